@@ -234,6 +234,18 @@ def run():
         else:
             good.append((it, x))
     verd = validate(rep, [x for _, x in good])
+    # the binding binds: a recorded sort with two differently ranked neighbours exchanged / one row lost must be rejected
+    import copy
+    probe = next((x for _, x in good if 3 <= len(x['out']) <= 200 and len(set(x['ranks'])) > 1), None)
+    if probe is not None:
+        c1, c2 = copy.deepcopy(probe), copy.deepcopy(probe)
+        j = next(i for i in range(len(c1['out']) - 1) if c1['ranks'][c1['out'][i] - 1] != c1['ranks'][c1['out'][i + 1] - 1])
+        c1['out'][j], c1['out'][j + 1] = c1['out'][j + 1], c1['out'][j]
+        c2['out'][0] = c2['out'][1]
+        (p1, s1), (p2, s2) = validate(rep, [c1, c2])
+        if s1 or p2:
+            raise tlc.MachineryError('SortTrace accepted a corrupted record (order=%s, permutation=%s): the trace spec does not bind' % (s1, p2))
+        rep.notes['trace_binding_selftest'] = 'a recorded output with two neighbours exchanged fails the order clause; one with a row lost fails the permutation clause'
     for (it, x), (perm, srt) in zip(good, verd):
         rep.count(1, traces=1)
         rep.mark_distinct(dict(s=it['seed'], m=it['mode']))
